@@ -91,7 +91,7 @@ def whole_tree_variants(prop: str, baseline: list) -> tuple[dict, list]:
     summary: dict = {}
     problems: list = []
     mod = importlib.import_module(f"fv.rules.{prop.lower()}")
-    for kind, make in (("rename-locals", variants.make_rename), ("hoist-arguments", variants.make_extract), ("invert-guards", variants.make_invert)):
+    for kind, make in (("rename-locals", variants.make_rename), ("hoist-arguments", variants.make_extract), ("invert-guards", variants.make_invert), ("reorder-assignments", variants.make_reorder)):
         tmp = Path(_tf.mkdtemp(prefix="fvvar_"))
         try:
             n = make(REPO, tmp)
